@@ -89,10 +89,14 @@ impl<T: Clone + Number> Div<Complex<T>> for Complex<T> {
     /// ( a + ib ) / ( c + id ) = [( ac + bd ) + i( bc - ad )] / ( c^2 + d^2 )
     #[inline]
     fn div(self, divisor: Self) -> Self::Output {
-        let denominator = divisor.real.clone() * divisor.real.clone() + divisor.imag.clone() * divisor.imag.clone();
-        let real = self.real.clone() * divisor.real.clone() + self.imag.clone() * divisor.imag.clone();  
-        let imag = self.imag * divisor.real - self.real * divisor.imag;
-        Self::Output::new( real / denominator.clone(), imag / denominator )
+        // the divisor is scaled by a power of two first, so that c^2 + d^2 neither overflows nor underflows
+        let scale = T::binary_scale( &divisor.real, &divisor.imag );
+        let c = divisor.real * scale.clone();
+        let d = divisor.imag * scale.clone();
+        let denominator = c.clone() * c.clone() + d.clone() * d.clone();
+        let real = self.real.clone() * c.clone() + self.imag.clone() * d.clone();  
+        let imag = self.imag * c - self.real * d;
+        Self::Output::new( real / denominator.clone() * scale.clone(), imag / denominator * scale )
     }
 }
 
@@ -177,16 +181,9 @@ impl<T: Clone + Number> DivAssign for Complex<T> {
     /// Divide a mutable complex variable by a complex number and assign the
     /// result to that variable ( *= )
     fn div_assign(&mut self, rhs: Self) {
-        let a = self.real.clone();
-        let denominator = rhs.real.clone() * rhs.real.clone() + rhs.imag.clone() * rhs.imag.clone();
-        
-        self.real *= rhs.real.clone();
-        self.real += self.imag.clone() * rhs.imag.clone();
-        self.real /= denominator.clone();
-
-        self.imag *= rhs.real;
-        self.imag -= a * rhs.imag;
-        self.imag /= denominator;
+        let quotient = self.clone() / rhs;
+        self.real = quotient.real;
+        self.imag = quotient.imag;
     }
 }
 
